@@ -52,11 +52,11 @@ theorem prepR_lt (r : Nat) (it : TraceItem) : (prepR r it).2 < 65536 := by
 
 /-! ### the plain fragment -/
 
-/-- events outside the fragment: platform commands, drum mode, macro tracks; notes outside the
-MDSDRV range (the writer refuses them) -/
+/-- events outside the fragment: platform commands, drum mode, macro tracks (pan envelope on),
+pitch envelope on; notes outside the MDSDRV range (the writer refuses them) -/
 def SimpleEv (e : Event) : Prop :=
   e.type ≠ ev_PLATFORM ∧ e.type ≠ ev_DRUM_MODE ∧ (e.type = ev_PAN_ENVELOPE → e.param = 0) ∧
-  (e.type = ev_NOTE → 0 ≤ e.param ∧ e.param < 94)
+  (e.type = ev_NOTE → 0 ≤ e.param ∧ e.param < 94) ∧ (e.type = ev_PITCH_ENVELOPE → e.param = 0)
 
 /-- what a shown hook call pushes, where that is a function of the event -/
 def detBody (it : TraceItem) : Option (List MEv) :=
@@ -91,7 +91,6 @@ inductive Body (m : List (Int × Nat)) (it : TraceItem) : List MEv → Prop
   | det {ms : List MEv} : detBody it = some ms → Body m it ms
   | jump {k : Nat} : it.ev.type = ev_JUMP → (subKey it.ev.param false false, k) ∈ m → Body m it [⟨mds_PAT, u16 (k : Int)⟩]
   | ins {ty i : Nat} : it.ev.type = ev_INS → (ty = mds_INS ∨ ty = mds_PCM) → Body m it [⟨ty, u16 (i : Int)⟩]
-  | peg {i : Nat} : it.ev.type = ev_PITCH_ENVELOPE → it.ev.param ≠ 0 → Body m it [⟨mds_PEG, u16 (wrap16 ((i : Int) + 1))⟩]
 
 theorem Body.mono {m m' : List (Int × Nat)} (hm : ∀ p ∈ m, p ∈ m') {it : TraceItem} {ms : List MEv} (h : Body m it ms) :
     Body m' it ms := by
@@ -99,7 +98,6 @@ theorem Body.mono {m m' : List (Int × Nat)} (hm : ∀ p ∈ m, p ∈ m') {it : 
   | det h => exact .det h
   | jump h1 h2 => exact .jump h1 (hm _ h2)
   | ins h1 h2 => exact .ins h1 h2
-  | peg h1 h2 => exact .peg h1 h2
 
 /-- the writer's event list for a list of shown hook calls: pending rest `r`, loop point seen `g` -/
 inductive Emits (m : List (Int × Nat)) : Nat → Bool → List TraceItem → List MEv → Nat → Bool → Prop
@@ -233,10 +231,10 @@ theorem hookVis_det {song : Song} {d : DataInfo} {n : Nat} {c : Conv} {w : WStat
 set_option hygiene false in
 macro "skip_some" : tactic => `(tactic| (rw [if_pos t] at h; cases h))
 
-/-- outside `detBody`: calls, instruments, pitch envelopes -/
+/-- outside `detBody`: calls, instruments -/
 theorem detBody_none {it : TraceItem} (hs : SimpleEv it.ev) (h : detBody it = none) :
-    it.ev.type = ev_JUMP ∨ it.ev.type = ev_INS ∨ (it.ev.type = ev_PITCH_ENVELOPE ∧ it.ev.param ≠ 0) := by
-  obtain ⟨s1, s2, s3, s4⟩ := hs
+    it.ev.type = ev_JUMP ∨ it.ev.type = ev_INS := by
+  obtain ⟨s1, s2, s3, s4, s5⟩ := hs
   unfold detBody at h
   simp only at h
   by_cases t : it.ev.type = ev_TIE
@@ -277,7 +275,7 @@ theorem detBody_none {it : TraceItem} (hs : SimpleEv it.ev) (h : detBody it = no
   · skip_some
   rw [if_neg t] at h; clear t
   by_cases t : it.ev.type = ev_INS
-  · exact .inr (.inl t)
+  · exact .inr t
   rw [if_neg t] at h; clear t
   by_cases t : it.ev.type = ev_TRANSPOSE
   · skip_some
@@ -295,10 +293,7 @@ theorem detBody_none {it : TraceItem} (hs : SimpleEv it.ev) (h : detBody it = no
   · rw [if_pos t, if_pos (s3 t)] at h; cases h
   rw [if_neg t] at h; clear t
   by_cases t : it.ev.type = ev_PITCH_ENVELOPE
-  · rw [if_pos t] at h
-    by_cases hp : it.ev.param = 0
-    · rw [if_pos hp] at h; cases h
-    · exact .inr (.inr ⟨t, hp⟩)
+  · rw [if_pos t, if_pos (s5 t)] at h; cases h
   rw [if_neg t] at h; clear t
   by_cases t : it.ev.type = ev_PORTAMENTO
   · skip_some
@@ -392,7 +387,7 @@ theorem hookVis_simple {song : Song} {d : DataInfo} (hpc : PlatformClean d) {n :
     obtain ⟨rfl, rfl⟩ := h
     exact ⟨ms, .det hb, rfl⟩
   | none =>
-    rcases detBody_none hs hb with t | t | ⟨t, hp⟩
+    rcases detBody_none hs hb with t | t
     · rw [hookVis_jump t, hd] at h
       cases hg : getSubroutine song d n c it.ev.param false false with
       | error x => rw [hg] at h; cases h
@@ -424,15 +419,6 @@ theorem hookVis_simple {song : Song} {d : DataInfo} (hpc : PlatformClean d) {n :
               obtain ⟨rfl, rfl⟩ := h
               exact ⟨_, .ins (i := (getEnvelope c (0x20000 + idx)).2) t (.inr rfl),
                 push_eq w it mds_PCM _ (by decide) (by rw [t]; decide)⟩
-    · rw [hookVis_peg t hp] at h
-      cases hl : d.pitchMap.lookup it.ev.param with
-      | none => rw [hl] at h; cases h
-      | some idx =>
-        rw [hl] at h
-        simp only [Except.ok.injEq, Prod.mk.injEq] at h
-        obtain ⟨rfl, rfl⟩ := h
-        exact ⟨_, .peg (i := (getEnvelope c (if d.pitchExtend.contains it.ev.param then 0x10000 + idx else idx)).2) t hp,
-          push_eq w it mds_PEG _ (by decide) (by rw [t]; decide)⟩
 
 /-- a hook call inside a repeated loop pass or inside a call changes nothing -/
 theorem hook_hidden {song : Song} {d : DataInfo} {n : Nat} {c c' : Conv} {w w' : WState} {it : TraceItem}
